@@ -227,7 +227,7 @@ func init() {
 			tab = map[string]value{}
 			i.ext["timefmt"] = tab
 		}
-		s := fmt.Sprintf("vtime%d", len(tab))
+		s := fmt.Sprintf("§t%d", len(tab))
 		tab[s] = mkTime(1, i.floorTo(ext, int64(time.Second)))
 		return s
 	})
@@ -269,7 +269,7 @@ func init() {
 			i.ext["durations"] = tab
 		}
 		d := i.newSymInt(a[0].(string), types.Int64, big.NewInt(asInt64(a[1])), big.NewInt(asInt64(a[2])))
-		s := fmt.Sprintf("vdur%d", len(tab))
+		s := fmt.Sprintf("§d%d", len(tab))
 		tab[s] = d
 		return s
 	})
